@@ -16,6 +16,15 @@ for d in sorted(glob.glob(os.path.join(HERE, "seeded", "*"))):
     files = ", ".join(os.path.basename(f) for f in m.get("files_touched", []))
     needs = " ".join(str(m.get("what_it_needs_to_manifest", "")).split())[:230]
     rows.append((os.path.basename(d), m.get("property"), files, needs, ", ".join(caught) or "-", ", ".join(missed) or ""))
+import sys
+if "--compact" in sys.argv:
+    print("| seeded change (seeded/<name>/) | breaks | file(s) changed | caught by (quick tier) |")
+    print("|---|---|---|---|")
+    for r in rows:
+        print(f"| {r[0]} | {r[1]} | {r[2]} | {r[4]} |")
+    print()
+    print(f"{len(rows)} seeded changes, {sum(1 for r in rows if r[4] != '-')} caught")
+    sys.exit(0)
 print("| seeded change | breaks | file(s) | needs, to manifest | caught by | run but silent |")
 print("|---|---|---|---|---|---|")
 for r in rows:
